@@ -59,7 +59,8 @@ def check_string(acc, src, origin):
 
 
 def shards(tier):
-    out = [dict(s, kind='sigma') for s in strings.shards('quick' if tier == 'quick' else 'thorough')]
+    out = [{'kind': 'mixed'}]
+    out += [dict(s, kind='sigma') for s in strings.shards('quick' if tier == 'quick' else 'thorough')]
     plan = 'small-quick' if tier == 'quick' else 'small-thorough'
     out += [dict(s, kind='ws', tier=tier) for s in layers.shards(plan, ('args',))]
     return out
@@ -83,7 +84,10 @@ def ws_variants(text, two):
 
 def run_shard(shard):
     acc = Acc(make_classifier(ID, SIGNATURES))
-    if shard['kind'] == 'sigma':
+    if shard['kind'] == 'mixed':
+        for s in layers.mixed_arg_strings():
+            check_string(acc, s, 'mixed-order arguments')
+    elif shard['kind'] == 'sigma':
         for s in strings.iter_strings(shard):
             check_string(acc, s, 'sigma-' + shard['alpha'])
     else:
